@@ -265,6 +265,39 @@ func (e *c13Env) apply(op *c13Op, o *c13Obs) {
 		}
 		mp.evictTransactions()
 		o.Res = "ok"
+	case "rmrace":
+		// two removals of one hash (Kind "twice"), or a removal racing a block arrival (other kinds): all parties are
+		// started while the engine holds the pool lock, so each has done whatever it does before locking
+		var wg sync.WaitGroup
+		var e1, e2 error
+		tx := e.txs[op.Tx].GetTx()
+		var blk *types.Block
+		if op.Kind != "twice" {
+			blk = e.mkBlock(op.State, op.Kind, op.Dirty)
+		}
+		mp.Lock()
+		wg.Add(2)
+		go func() { defer wg.Done(); e1 = mp.removeTx(tx) }()
+		if blk == nil {
+			go func() { defer wg.Done(); e2 = mp.removeTx(tx) }()
+		} else {
+			go func() { defer wg.Done(); mp.removeOnBlockArrival(blk) }()
+		}
+		time.Sleep(25 * time.Millisecond)
+		mp.Unlock()
+		wg.Wait()
+		if blk == nil {
+			switch {
+			case (e1 == nil) != (e2 == nil):
+				o.Res = "ok" // exactly one of the two removed it
+			case e1 == nil:
+				o.Res = "err:both removals reported success"
+			default:
+				o.Res = errName(e1)
+			}
+		} else {
+			o.Res = "ok"
+		}
 	case "bulkput":
 		okc := 0
 		for i := op.From; i < op.To && i < len(e.txs); i++ {
